@@ -13,3 +13,26 @@ package main
 //@ func InitHandler
 //@   ensures [split-at-first-equals-only] delta(SplitOtherwise) == 0 && delta(FrontendSplit) == 0
 //@   loop range os.Environ(): invariant delta(SplitOtherwise) == 0 && delta(FrontendSplit) == 0
+
+// C01: the front end hands the request body to the sandbox unchanged and answers with what the sandbox wrote
+//@ event SandboxInvoke = call cmd/aws-lambda-rie.(Sandbox).Invoke
+//@ event SandboxInvokeOK = ret cmd/aws-lambda-rie.(Sandbox).Invoke when r0 == nil
+//@ event SandboxInvokeFailed = ret cmd/aws-lambda-rie.(Sandbox).Invoke when r0 != nil
+//@ event SandboxInvokeTimedOut = ret cmd/aws-lambda-rie.(Sandbox).Invoke when r0 == rapidcore.ErrInvokeTimeout
+//@ event SandboxInvokeDoneFailed = ret cmd/aws-lambda-rie.(Sandbox).Invoke when r0 == rapidcore.ErrInvokeDoneFailed || r0 == rapidcore.ErrInitDoneFailed
+//@ spec proxyOf(w net/http.ResponseWriter) *ResponseWriterProxy = w.(*ResponseWriterProxy)
+
+//@ func (*ResponseWriterProxy).Write
+//@   modifies w.Body
+//@   ensures [keeps-what-was-written] w.Body == b && r1 == nil
+//@ func (*ResponseWriterProxy).WriteHeader
+//@   modifies w.StatusCode
+//@   ensures [keeps-the-status] w.StatusCode == statusCode
+
+//@ func InvokeHandler
+//@   requires w != nil && r != nil
+//@   ensures [at-most-one-invoke] delta(SandboxInvoke) <= 1 && (readFails(r.Body) ==> delta(SandboxInvoke) == 0 && ghost(httpStatus) == 500)
+//@   ensures [payload-is-the-request-body] delta(SandboxInvoke) == 1 ==> readerContent(lastarg(SandboxInvoke, 2).Payload) == readerContent(r.Body) && readerLen(lastarg(SandboxInvoke, 2).Payload) == readerLen(r.Body) && typeis(lastarg(SandboxInvoke, 1), *ResponseWriterProxy) && fresh(proxyOf(lastarg(SandboxInvoke, 1))) && fresh(lastarg(SandboxInvoke, 2))
+//@   ensures [answer-is-what-the-sandbox-wrote] delta(SandboxInvokeOK) == 1 ==> ghost(httpLastWriter) == ref(w) && ghost(httpLastContent) == contentOf(proxyOf(lastarg(SandboxInvoke, 1)).Body) && ghost(httpLastLen) == len(proxyOf(lastarg(SandboxInvoke, 1)).Body) && ghost(httpWrites) == old(ghost(httpWrites)) + 1 && (proxyOf(lastarg(SandboxInvoke, 1)).StatusCode != 0 ==> ghost(httpStatus) == proxyOf(lastarg(SandboxInvoke, 1)).StatusCode)
+//@   ensures [failure-is-502-with-the-sandbox-body] delta(SandboxInvokeDoneFailed) == 1 ==> ghost(httpStatus) == 502 && ghost(httpLastContent) == contentOf(proxyOf(lastarg(SandboxInvoke, 1)).Body) && ghost(httpWrites) == old(ghost(httpWrites)) + 1
+//@   ensures [one-body-per-request] ghost(httpWrites) <= old(ghost(httpWrites)) + 1
